@@ -199,7 +199,7 @@ def step (fx : Bool) (s : St) : Op → St × Out
     | none => (s, {})
     | some (inserted, conns') =>
       let s' := { s with connected := upd s.connected p conns' }
-      if !inserted && s.dbg then (s', { panic := some "debug_assert inserted" })
+      if !inserted && s.dbg then (s', { panic := some "Expect id of new request to be unknown." })
       else (s', { evs := [.request p c id] })
   | .hIn p c id k =>
     let r := removeP false c id (s.connected p)
@@ -298,19 +298,29 @@ def strictlyIncreasing : List Nat → Bool
   | a :: b :: t => decide (a < b) && strictlyIncreasing (b :: t)
 
 /-- is a panic of this op excused: the op violates the Swarm/handler contract
-(`ConnectionClosed` for a connection never established; a `Request` event re-using an id) -/
-def panicExcused (before : Trace) (op : Op) : Bool :=
+(`ConnectionClosed` for a connection never established; a `Request` event re-using an id).
+`seen` = ids of the `Request` events before this op. -/
+def panicExcused (seen : List RId) (op : Op) : Bool :=
   match op with
   | .closed _ _ => true
-  | .hRequest _ _ id => decide (id ∈ reqIds before)
+  | .hRequest _ _ id => decide (id ∈ seen)
   | _ => false
+
+def reqIdOf : Op → List RId
+  | .hRequest _ _ id => [id]
+  | _ => []
+
+/-- every panic along the trace is excused -/
+def panicsOk (seen : List RId) : Trace → Bool
+  | [] => true
+  | e :: t => (e.out.panic.isNone || panicExcused seen e.op) && panicsOk (seen ++ reqIdOf e.op) t
 
 def lastPo (t : Trace) : List (Peer × RId) := (t.getLast?.map (·.po)).getD []
 def lastPi (t : Trace) : List (Peer × RId) := (t.getLast?.map (·.pi)).getD []
 
-/-- **The property on a trace** (np = number of peers sampled).  Returns the first violated
-clause, `none` when the trace satisfies the property. -/
-def specKey (np : Nat) (t : Trace) : Option String :=
+/-- **The property on a trace.**  Returns the first violated clause, `none` when the trace
+satisfies the property. -/
+def specKey (t : Trace) : Option String :=
   let E := t.evs
   let iss := issued t
   let od := outDone E
@@ -335,15 +345,10 @@ def specKey (np : Nat) (t : Trace) : Option String :=
   else if fresh && !dl.all (fun x => (lastPi t).contains (x.2, x.1) == !idn.contains x) then some "partition_in"
   else if fresh && !dl.all (fun x => idn.contains x || decide (0 < openCount x.2 t)) then some "quiescence_in"
   -- no panic on in-contract ops
-  else if !(List.range t.length).all (fun i =>
-      match t[i]? with
-      | some e => e.out.panic.isNone || panicExcused (t.take i) e.op
-      | none => true) then some "panic"
-  else
-    let _ := np
-    none
+  else if !panicsOk [] t then some "panic"
+  else none
 
-def spec (np : Nat) (t : Trace) : Bool := (specKey np t).isNone
+def spec (t : Trace) : Bool := (specKey t).isNone
 
 /-- run the model, recording the trace (`ids`: inbound ids to sample, as the harness does) -/
 def samplePo (np : Nat) (s : St) : List (Peer × RId) :=
